@@ -8,6 +8,7 @@ import (
 	"os"
 	"sort"
 	"strings"
+	"sync"
 	"testing"
 
 	rl "github.com/anyproto/any-sync/app/ldiff"
@@ -369,6 +370,7 @@ func specAskedKey(round []breq) []string {
 type judge struct {
 	rep      *vfutil.Report
 	property string
+	mu       sync.Mutex
 	other    int
 }
 
@@ -379,7 +381,9 @@ func (j *judge) violate(prop, key, desc string, replay any) {
 		j.rep.Violate(key, desc, replay)
 		return
 	}
+	j.mu.Lock()
 	j.other++
+	j.mu.Unlock()
 }
 
 // runBehaviour executes one behaviour; returns the number of steps executed.
